@@ -6,6 +6,11 @@ package otter
 // order must make every result equal to the sequential map's. A compute callback runs exactly once per call and
 // read-modify-write callbacks from two threads are never lost.
 
+import (
+	"context"
+	"sync"
+)
+
 func init() {
 	vRegister("ZZ_C02_Linearizable", ZZ_C02_Linearizable)
 }
@@ -18,10 +23,14 @@ const (
 	zzLComputeIfAbsent
 	zzLInvalidate
 	zzLComputeIfPresentInc
+	zzLGetLoad
+	zzLComputeCancel
+	zzLComputeIfAbsentCancel
 	zzLN
+	zzLAutoRemove = 100 // not chosen: an automatic removal reported by OnAtomicDeletion, entered into the history at that instant
 )
 
-var zzLNames = []string{"Set", "SetIfAbsent", "GetIfPresent", "ComputeInc", "ComputeIfAbsent", "Invalidate", "ComputeIfPresentInc"}
+var zzLNames = []string{"Set", "SetIfAbsent", "GetIfPresent", "ComputeInc", "ComputeIfAbsent", "Invalidate", "ComputeIfPresentInc", "GetLoad", "ComputeCancel", "ComputeIfAbsentCancel"}
 
 type zzLOp struct {
 	kind, key, arg int
@@ -29,58 +38,165 @@ type zzLOp struct {
 	rok           bool
 	t0, t1        int
 	cbCalls       int
+	rerr          bool
+	noInstall     bool // GetLoad only, chosen by the checker: the loaded value was handed to the caller but not installed
+	tl, tle       int  // GetLoad only: instants at which the loader was entered and left
+	sawV          int  // ComputeCancel: what the callback was shown
+	sawF          bool
 }
 
-// zzLApply runs one operation of the sequential specification on m and returns its result.
-func zzLApply(m *[3]int, has *[3]bool, o *zzLOp) (int, bool) {
+// zzLState is the sequential specification's state: the map, plus the loads in flight (a loading Get is two atomic
+// steps: the miss, and later the installation of the loaded value — or nothing, if a write superseded the load, C09).
+type zzLState struct {
+	m       [3]int
+	has     [3]bool
+	pending []zzLPend
+}
+
+type zzLPend struct {
+	o        *zzLOp
+	definite bool // a write that began after the loader had been entered took effect: the load must not install
+	maybe    bool // a write that began before the loader was entered took effect after the miss: either outcome is legal
+}
+
+// zzLApply runs one operation of the sequential specification and returns its result; wrote reports whether the
+// operation is a write in the sense of C09 (it clears the key's in-flight load).
+func zzLApply(st *zzLState, o *zzLOp) (rv int, rok bool, wrote bool) {
 	k := o.key
+	m, has := &st.m, &st.has
 	switch o.kind {
 	case zzLSet:
 		old, was := m[k], has[k]
 		m[k], has[k] = o.arg, true
 		if was {
-			return old, false
+			return old, false, true
 		}
-		return o.arg, true
+		return o.arg, true, true
 	case zzLSetIfAbsent:
 		if has[k] {
-			return m[k], false
+			return m[k], false, false
 		}
 		m[k], has[k] = o.arg, true
-		return o.arg, true
-	case zzLGet:
+		return o.arg, true, true
+	case zzLGet, zzLComputeCancel, zzLComputeIfAbsentCancel:
+		// a cancelled computation reads like a lookup: the present value, or nothing
 		if has[k] {
-			return m[k], true
+			return m[k], true, false
 		}
-		return 0, false
+		return 0, false, false
 	case zzLComputeInc:
 		if has[k] {
 			m[k] = m[k] + 1
 		} else {
 			m[k], has[k] = 1, true
 		}
-		return m[k], true
+		return m[k], true, true
 	case zzLComputeIfAbsent:
 		if has[k] {
-			return m[k], true
+			return m[k], true, false
 		}
 		m[k], has[k] = o.arg, true
-		return o.arg, true
+		return o.arg, true, true
 	case zzLInvalidate:
 		if has[k] {
 			v := m[k]
 			m[k], has[k] = 0, false
-			return v, true
+			return v, true, true
 		}
-		return 0, false
+		return 0, false, true
 	case zzLComputeIfPresentInc:
 		if has[k] {
 			m[k] = m[k] + 1
-			return m[k], true
+			return m[k], true, true
 		}
-		return 0, false
+		return 0, false, false
+	case zzLAutoRemove:
+		// removal by the cache itself: legal only for the value the map holds at that instant
+		if has[k] && m[k] == o.arg {
+			m[k], has[k] = 0, false
+			return o.arg, true, true
+		}
+		return -1, false, false
 	}
-	return 0, false
+	return -1, false, false
+}
+
+// zzLEnt is one atomic step of the history: a whole operation, or the miss (phase 1) / installation (phase 2) of a
+// loading Get.
+type zzLEnt struct {
+	o      *zzLOp
+	phase  int
+	t0, t1 int
+}
+
+// zzLStep applies one entry; false = this entry cannot come next in a legal sequential history.
+func zzLStep(st *zzLState, e zzLEnt, all []*zzLOp) bool {
+	o := e.o
+	k := o.key
+	if o.kind == zzLGetLoad {
+		switch e.phase {
+		case 0: // a Get that did not invoke its loader: a hit, or it joined the load of an overlapping Get (C08)
+			if !o.rok {
+				return false
+			}
+			if st.has[k] && st.m[k] == o.rv {
+				return true
+			}
+			for _, x := range all {
+				if x != o && x.kind == zzLGetLoad && x.key == k && x.cbCalls == 1 && x.arg == o.rv && !(x.t1 < o.t0 || o.t1 < x.t0) {
+					return true
+				}
+			}
+			return false
+		case 1: // the miss
+			if st.has[k] || !o.rok || o.rv != o.arg {
+				return false
+			}
+			st.pending = append(st.pending, zzLPend{o: o})
+			return true
+		default: // the installation
+			for i := range st.pending {
+				if st.pending[i].o == o {
+					p := st.pending[i]
+					st.pending = append(st.pending[:i:i], st.pending[i+1:]...)
+					if o.noInstall {
+						return p.definite || p.maybe
+					}
+					if p.definite {
+						return false
+					}
+					st.m[k], st.has[k] = o.arg, true
+					return true
+				}
+			}
+			return false
+		}
+	}
+	rv, rok, wrote := zzLApply(st, o)
+	if rv != o.rv || rok != o.rok {
+		return false
+	}
+	if o.kind == zzLComputeCancel || o.kind == zzLComputeIfAbsentCancel {
+		// a cancelled computation that meets an expired, unswept node drops it physically, which clears the key's
+		// in-flight load: either outcome of that load is legal afterwards
+		for i := range st.pending {
+			if st.pending[i].o.key == k {
+				st.pending[i].maybe = true
+			}
+		}
+	}
+	if wrote {
+		for i := range st.pending {
+			if st.pending[i].o.key == k {
+				if o.t0 > st.pending[i].o.tl {
+					st.pending[i].definite = true
+				} else {
+					st.pending[i].maybe = true
+				}
+			}
+		}
+	}
+	return true
 }
 
 func zzLRun(c *Cache[int, int], clk *zzTick, o *zzLOp) {
@@ -112,62 +228,175 @@ func zzLRun(c *Cache[int, int], clk *zzTick, o *zzLOp) {
 			o.cbCalls++
 			return old + 1, WriteOp
 		})
+	case zzLComputeCancel:
+		o.rv, o.rok = c.Compute(o.key, func(old int, found bool) (int, ComputeOp) {
+			o.cbCalls++
+			o.sawV, o.sawF = old, found
+			return o.arg, CancelOp
+		})
+	case zzLComputeIfAbsentCancel:
+		o.rv, o.rok = c.ComputeIfAbsent(o.key, func() (int, bool) {
+			o.cbCalls++
+			return o.arg, true
+		})
+	case zzLGetLoad:
+		v, err := c.Get(context.Background(), o.key, LoaderFunc[int, int](func(ctx context.Context, key int) (int, error) {
+			o.cbCalls++
+			o.tl = clk.now()
+			vYield()
+			o.tle = clk.now()
+			return o.arg, nil
+		}))
+		o.rv, o.rok, o.rerr = v, err == nil, err != nil
 	}
 	o.t1 = clk.now()
 }
 
-// zzLinearizable: does some permutation of ops respecting real-time order reproduce all results (and the final state)?
+// zzLinearizable: does some sequence of the atomic steps that respects real-time order reproduce every result and
+// the final state? Every order and, for each loading Get, both outcomes of its installation are tried.
 func zzLinearizable(ops []*zzLOp, init [3]int, initHas [3]bool, final [3]int, finalHas [3]bool) bool {
-	n := len(ops)
-	perm := make([]int, 0, n)
-	used := make([]bool, n)
-	var rec func() bool
-	rec = func() bool {
-		if len(perm) == n {
-			m, has := init, initHas
-			for _, i := range perm {
-				v, ok := zzLApply(&m, &has, ops[i])
-				if v != ops[i].rv || ok != ops[i].rok {
-					return false
-				}
-			}
-			return m == final && has == finalHas
+	var ents []zzLEnt
+	var loads []*zzLOp
+	for _, o := range ops {
+		if o.kind == zzLGetLoad && o.cbCalls == 1 {
+			ents = append(ents, zzLEnt{o: o, phase: 1, t0: o.t0, t1: o.tl}, zzLEnt{o: o, phase: 2, t0: o.tle, t1: o.t1})
+			loads = append(loads, o)
+		} else {
+			ents = append(ents, zzLEnt{o: o, t0: o.t0, t1: o.t1})
 		}
-		for i := 0; i < n; i++ {
-			if used[i] {
-				continue
-			}
-			// real-time order: i may come next only if no unused op returned before i was called
-			okRT := true
-			for j := 0; j < n; j++ {
-				if j != i && !used[j] && ops[j].t1 < ops[i].t0 {
-					okRT = false
-				}
-			}
-			if !okRT {
-				continue
-			}
-			used[i] = true
-			perm = append(perm, i)
-			if rec() {
-				return true
-			}
-			perm = perm[:len(perm)-1]
-			used[i] = false
-		}
-		return false
 	}
-	return rec()
+	n := len(ents)
+	var try func(li int) bool
+	search := func() bool {
+		used := make([]bool, n)
+		var rec func(st zzLState, cnt int) bool
+		rec = func(st zzLState, cnt int) bool {
+			if cnt == n {
+				return st.m == final && st.has == finalHas
+			}
+			for i := 0; i < n; i++ {
+				if used[i] {
+					continue
+				}
+				okRT := true
+				for j := 0; j < n; j++ {
+					if j != i && !used[j] && ents[j].t1 < ents[i].t0 {
+						okRT = false
+					}
+				}
+				if !okRT {
+					continue
+				}
+				st2 := st
+				st2.pending = append([]zzLPend(nil), st.pending...)
+				if !zzLStep(&st2, ents[i], ops) {
+					continue
+				}
+				used[i] = true
+				if rec(st2, cnt+1) {
+					return true
+				}
+				used[i] = false
+			}
+			return false
+		}
+		return rec(zzLState{m: init, has: initHas}, 0)
+	}
+	try = func(li int) bool {
+		if li == len(loads) {
+			return search()
+		}
+		loads[li].noInstall = false
+		if try(li + 1) {
+			return true
+		}
+		loads[li].noInstall = true
+		r := try(li + 1)
+		loads[li].noInstall = false
+		return r
+	}
+	return try(0)
 }
 
+// zzLockedExec queues the maintenance tasks the cache hands to its executor (never run while the threads are racing).
+type zzLockedExec struct {
+	mu sync.Mutex
+	q  []func()
+}
+
+func (e *zzLockedExec) exec(fn func()) {
+	e.mu.Lock()
+	e.q = append(e.q, fn)
+	e.mu.Unlock()
+}
+
+func (e *zzLockedExec) run() {
+	for {
+		e.mu.Lock()
+		if len(e.q) == 0 {
+			e.mu.Unlock()
+			return
+		}
+		fn := e.q[0]
+		e.q = e.q[1:]
+		e.mu.Unlock()
+		fn()
+	}
+}
+
+// Configurations (job parameter cfg):
+//   0  plain cache (no policies), optionally pre-loaded with key 1
+//   1  write-reset expiry under a manual clock with a queueing executor: key 1 is expired but not yet swept when the
+//      threads start (abstractly absent); the clock stands still during the race, the queue and CleanUp run afterwards
+//   2  MaximumSize 1 with a same-goroutine executor: maintenance (and size eviction) runs inside the writers; every
+//      Overflow removal reported by OnAtomicDeletion enters the history as a removal at the instant of the report
 func ZZ_C02_Linearizable() {
-	c := Must(&Options[int, int]{Logger: &NoopLogger{}})
+	cfg := vParam("cfg")
 	clk := &zzTick{}
+	o := &Options[int, int]{Logger: &NoopLogger{}}
+	var mclk *zzClock
+	var lex *zzLockedExec
+	var autoMu sync.Mutex
+	var auto []*zzLOp
+	switch cfg {
+	case 1:
+		mclk = &zzClock{now: 1 << 32}
+		lex = &zzLockedExec{}
+		o.Clock = mclk
+		o.Executor = lex.exec
+		o.ExpiryCalculator = ExpiryWriting[int, int](1000)
+	case 2:
+		o.MaximumSize = 1
+		o.Executor = func(fn func()) { fn() }
+		o.OnAtomicDeletion = func(e DeletionEvent[int, int]) {
+			if e.Cause == CauseOverflow || e.Cause == CauseExpiration {
+				t := clk.now()
+				autoMu.Lock()
+				// the handler is called inside the table computation that unlinks the node; the unlinking itself takes
+				// effect when that computation ends, so the removal's instant lies at or after the report (t1 open)
+				auto = append(auto, &zzLOp{kind: zzLAutoRemove, key: e.Key, arg: e.Value, rv: e.Value, rok: true, t0: t, t1: 1 << 30})
+				autoMu.Unlock()
+			}
+		}
+	}
+	c := Must(o)
+	vDaemons() // an expiring cache starts periodicCleanUp, which waits for a ticker the manual clock never fires
 	var init [3]int
 	var initHas [3]bool
-	if vChoice("pre", 2) == 1 {
+	switch cfg {
+	case 0:
+		if vChoice("pre", 2) == 1 {
+			c.Set(1, 50)
+			init[1], initHas[1] = 50, true
+		}
+	case 1:
 		c.Set(1, 50)
-		init[1], initHas[1] = 50, true
+		mclk.now += 1000 // the deadline has been reached: key 1 is absent for every operation, its node is still in the table
+	case 2:
+		if vChoice("pre", 2) == 1 {
+			c.Set(1, 50)
+			init[1], initHas[1] = 50, true
+		}
 	}
 	nt := vParam("threads")
 	per := vParam("ops_per_thread")
@@ -207,14 +436,34 @@ func ZZ_C02_Linearizable() {
 			final[k], finalHas[k] = e.Value, true
 		}
 	}
+	if cfg == 1 {
+		// pending maintenance changes nothing the abstract map can see (the clock has not moved)
+		lex.run()
+		c.CleanUp()
+		lex.run()
+		for k := 1; k <= 2; k++ {
+			e, ok := c.GetEntryQuietly(k)
+			vAssert(ok == finalHas[k] && (!ok || e.Value == final[k]), "c02.pending_maintenance_does_not_change_contents")
+		}
+	}
+	ops = append(ops, auto...)
 	for _, o := range ops {
 		switch o.kind {
 		case zzLComputeInc:
 			vAssert(o.cbCalls == 1, "c02.compute_callback_exactly_once")
-		case zzLComputeIfAbsent, zzLComputeIfPresentInc:
+		case zzLComputeCancel:
+			vAssert(o.cbCalls == 1, "c02.compute_callback_exactly_once")
+			vAssert(o.sawF == o.rok && (!o.sawF || o.sawV == o.rv), "c02.cancelled_compute_returns_what_its_callback_saw")
+		case zzLComputeIfAbsent, zzLComputeIfPresentInc, zzLComputeIfAbsentCancel:
 			vAssert(o.cbCalls <= 1, "c02.conditional_compute_callback_at_most_once")
+		case zzLGetLoad:
+			vAssert(o.cbCalls <= 1 && !o.rerr, "c02.get_loads_at_most_once_and_succeeds")
 		}
 	}
+	for _, o := range ops {
+		vLog("op", o.kind, o.key, o.arg, o.rv, o.rok, o.t0, o.t1, o.cbCalls, o.tl, o.tle)
+	}
+	vLog("final", final[1], finalHas[1], final[2], finalHas[2])
 	vAssert(zzLinearizable(ops, init, initHas, final, finalHas), "c02.history_is_linearizable")
 	if vParam("canary") == 1 {
 		vAssert(!finalHas[1], "c02.canary")
